@@ -13,6 +13,22 @@ func main() {
 	switch os.Args[1] {
 	case "func":
 		os.Exit(cmdFunc(os.Args[2:]))
+	case "replay":
+		os.Exit(cmdReplay(os.Args[2]))
+	case "check":
+		id := os.Args[2]
+		tier := os.Getenv("VERIF_TIER")
+		for i, a := range os.Args {
+			if a == "--tier" && i+1 < len(os.Args) {
+				tier = os.Args[i+1]
+			}
+		}
+		if tier != "thorough" {
+			tier = "quick"
+		}
+		var seed int64
+		fmt.Sscan(os.Getenv("VERIF_SEED"), &seed)
+		os.Exit(runCheck(id, tier, seed))
 	default:
 		fmt.Fprintln(os.Stderr, "unknown command")
 		os.Exit(2)
@@ -37,6 +53,9 @@ func cmdFunc(args []string) int {
 		fmt.Printf("%-12s %-10s %6.2fs %s\n", r.Status, r.Solver, r.Seconds, r.Name)
 		if r.Status != "proved" {
 			bad++
+			if os.Getenv("GOVC_VERBOSE") != "" {
+				fmt.Println(truncate(r.Output+r.Model, 1500))
+			}
 		}
 	}
 	fmt.Printf("%d obligations, %d not proved; inlined=%v modular=%v extern=%v\n", len(res), bad, keys(fr.VC.Inlined), keys(fr.VC.Modular), keys(fr.VC.Extern))
